@@ -74,36 +74,50 @@ theorem judge_verdict (cur : Option Nat) (a : Answer) :
       a.delivered = true) ∨
     (a.verdict = .fail ∧ ∃ e, (judge cur a).1 = .done (.err e) ∧ e ≠ .noNonce ∧
       (∀ x, e ≠ .nonceFetch x) ∧ e ≠ .clientBuild) := by
-  obtain ⟨d, o, h, b⟩ := a
+  obtain ⟨d, o, h, b, rd⟩ := a
   cases d <;> cases o <;> cases h <;> cases b <;>
     simp [judge, Answer.verdict, updateNonce] <;>
     (split <;> simp_all)
 
 /-- The stored nonce after an answer: the one it issued, else unchanged. -/
 theorem judge_snd (cur : Option Nat) (a : Answer) : (judge cur a).2 = a.issued.or cur := by
-  obtain ⟨d, o, h, b⟩ := a
+  obtain ⟨d, o, h, b, rd⟩ := a
   cases d <;> cases o <;> cases h <;> cases b <;>
     simp [judge, Answer.issued, updateNonce] <;>
     (split <;> simp_all)
 
 /-! ## Shapes of the pieces -/
 
-theorem get_evs_cases (st : State) (c : Bool) (u : Nat) :
-    (get st c u).evs = [] ∨ (get st c u).evs = [.admit, .getSend u] ∨
-    ∃ a, (get st c u).evs = [.admit, .getSend u, .recvGet a] := by
-  simp only [get]
-  split
-  · split
+/-- The events of `get` are blocks `admit, getSend u, recvGet a` (one per request of the redirect
+chain), the last block possibly without its answer. -/
+theorem getLoop_posts (fuel u : Nat) (st : State) :
+    posts (getLoop fuel u st).evs = [] ∧ postAnswers (getLoop fuel u st).evs = [] := by
+  induction fuel generalizing u st with
+  | zero => simp [getLoop]
+  | succ fuel ih =>
+    simp only [getLoop]
+    split
     · simp
-    · right; right
-      rename_i a rest _
-      refine ⟨a, ?_⟩
-      split <;> (try split) <;> (try split) <;> (try split) <;> rfl
-  · simp
+    · rename_i a rest _
+      split
+      · split
+        · simp
+        · split
+          · rename_i u' k _
+            have := ih u' { script := rest, nonce := ‹Option Nat›, nonceUrl := st.nonceUrl }
+            simp_all
+          · simp
+          · split
+            · split <;> simp
+            · simp
+      · simp
 
 theorem get_posts (st : State) (c : Bool) (u : Nat) :
     posts (get st c u).evs = [] ∧ postAnswers (get st c u).evs = [] := by
-  rcases get_evs_cases st c u with h | h | ⟨a, h⟩ <;> simp [h]
+  simp only [get]
+  split
+  · exact getLoop_posts _ _ _
+  · simp
 
 theorem newNonce_posts (st : State) (c : Bool) :
     posts (newNonce st c).evs = [] ∧ postAnswers (newNonce st c).evs = [] := by
@@ -424,29 +438,63 @@ theorem postLoop_count (mode : NonceMode) (url : Nat) :
 theorem get_false (st : State) (u : Nat) : get st false u = ⟨.err .clientBuild, st, []⟩ := by
   simp [get]
 
-theorem get_nil (st : State) (u : Nat) (h : st.script = []) :
-    get st true u = ⟨.stuck, st, [.admit, .getSend u]⟩ := by
-  simp [get, h]
+theorem get_true (st : State) (u : Nat) :
+    get st true u = getLoop Gen.DEFAULT_HTTP_MAX_REDIRECT u st := by
+  simp [get]
 
-/-- Whatever the answer, `get` leaves the nonce it issued (else the old one) and the same three
-events. -/
-theorem get_cons (st : State) (u : Nat) (a : Answer) (rest : List Answer) (h : st.script = a :: rest) :
-    (get st true u).st = ⟨a.issued.or st.nonce, rest, st.nonceUrl⟩ ∧
-    (get st true u).evs = [.admit, .getSend u, .recvGet a] := by
-  obtain ⟨d, o, hd, b⟩ := a
-  cases d <;> cases o <;> cases hd <;> cases b <;> simp [get, h, updateNonce, Answer.issued]
+theorem getLoop_nil (fuel u : Nat) (st : State) (h : st.script = []) :
+    getLoop (fuel + 1) u st = ⟨.stuck, st, [.admit, .getSend u]⟩ := by
+  simp [getLoop, h]
 
-/-- `get` returns `Ok` only for a delivered 2xx answer. -/
+/-- One iteration of the loop of `get` on a non-empty script.  Whatever the answer, the iteration
+leaves the nonce it issued (else the old one) and the same three events; it goes on with the next
+iteration exactly for a delivered answer with an acceptable nonce header that is a redirection
+with a usable `Location`. -/
+theorem getLoop_cons (fuel u : Nat) (st : State) (a : Answer) (rest : List Answer)
+    (h : st.script = a :: rest) :
+    (∃ u' k, a.delivered = true ∧ a.nonce ≠ .invalid ∧ a.redir = .to u' k ∧
+      getLoop (fuel + 1) u st =
+        ⟨(getLoop fuel u' ⟨a.issued.or st.nonce, rest, st.nonceUrl⟩).res,
+         (getLoop fuel u' ⟨a.issued.or st.nonce, rest, st.nonceUrl⟩).st,
+         [.admit, .getSend u, .recvGet a] ++
+           (getLoop fuel u' ⟨a.issued.or st.nonce, rest, st.nonceUrl⟩).evs⟩) ∨
+    ((a.delivered = false ∨ a.nonce = .invalid ∨ ∀ u' k, a.redir ≠ .to u' k) ∧
+      (getLoop (fuel + 1) u st).st = ⟨a.issued.or st.nonce, rest, st.nonceUrl⟩ ∧
+      (getLoop (fuel + 1) u st).evs = [.admit, .getSend u, .recvGet a] ∧
+      ∀ b, (getLoop (fuel + 1) u st).res = .ok b →
+        a.delivered = true ∧ a.ok2xx = true ∧ a.redir = .no ∧ a.body = b) := by
+  obtain ⟨d, o, hd, b, rd⟩ := a
+  cases d <;> cases o <;> cases hd <;> cases b <;> cases rd <;>
+    simp [getLoop, h, updateNonce, Answer.issued]
+
+/-- `get` returns `Ok` only for a delivered 2xx answer that is not a followed redirection: the
+last answer it received. -/
+theorem getLoop_ok (fuel u : Nat) (st : State) (b : Body) (h : (getLoop fuel u st).res = .ok b) :
+    ∃ a, (recvd (getLoop fuel u st).evs).getLast? = some a ∧ a.delivered = true ∧
+      a.ok2xx = true ∧ a.redir = .no ∧ a.body = b := by
+  induction fuel generalizing u st with
+  | zero => simp [getLoop] at h
+  | succ fuel ih =>
+    cases hs : st.script with
+    | nil => rw [getLoop_nil fuel u st hs] at h; cases h
+    | cons a rest =>
+      rcases getLoop_cons fuel u st a rest hs with ⟨u', k, -, -, -, he⟩ | ⟨-, -, he, hok⟩
+      · rw [he] at h ⊢
+        obtain ⟨a', h1, h2⟩ := ih u' _ h
+        refine ⟨a', ?_, h2⟩
+        simp only [recvd_append, List.getLast?_append, h1]
+        simp
+      · refine ⟨a, ?_, hok b h⟩
+        rw [he]; simp
+
 theorem get_ok (st : State) (c : Bool) (u : Nat) (b : Body) (h : (get st c u).res = .ok b) :
-    ∃ a rest, st.script = a :: rest ∧ a.delivered = true ∧ a.ok2xx = true ∧ c = true := by
+    ∃ a, (recvd (get st c u).evs).getLast? = some a ∧ a.delivered = true ∧ a.ok2xx = true ∧
+      a.redir = .no ∧ a.body = b ∧ c = true := by
   cases c
   · simp [get] at h
-  · cases hs : st.script with
-    | nil => simp [get, hs] at h
-    | cons a rest =>
-      refine ⟨a, rest, rfl, ?_⟩
-      obtain ⟨d, o, hd, b'⟩ := a
-      cases d <;> cases o <;> cases hd <;> cases b' <;> simp [get, hs, updateNonce] at h ⊢
+  · rw [get_true] at h ⊢
+    obtain ⟨a, h1, h2, h3, h4, h5⟩ := getLoop_ok _ _ _ _ h
+    exact ⟨a, h1, h2, h3, h4, h5, rfl⟩
 
 theorem transmit_cons (mode : NonceMode) (url i : Nat) (st st1 : State) (sent : Option Nat)
     (a : Answer) (rest : List Answer) (hp : pickNonce mode st = some (sent, st1))
@@ -459,8 +507,21 @@ theorem transmit_cons (mode : NonceMode) (url i : Nat) (st st1 : State) (sent : 
 
 /-! ## No poll event inside `post` -/
 
+theorem getLoop_pollWaits (fuel u : Nat) (st : State) : pollWaits (getLoop fuel u st).evs = 0 := by
+  induction fuel generalizing u st with
+  | zero => simp [getLoop]
+  | succ fuel ih =>
+    cases hs : st.script with
+    | nil => rw [getLoop_nil fuel u st hs]; simp
+    | cons a rest =>
+      rcases getLoop_cons fuel u st a rest hs with ⟨u', k, -, -, -, he⟩ | ⟨-, -, he, -⟩
+      · rw [he]; simp [ih]
+      · rw [he]; simp
+
 theorem get_pollWaits (st : State) (c : Bool) (u : Nat) : pollWaits (get st c u).evs = 0 := by
-  rcases get_evs_cases st c u with h | h | ⟨a, h⟩ <;> simp [h]
+  cases c
+  · simp [get]
+  · rw [get_true]; exact getLoop_pollWaits _ _ _
 
 theorem prepNonce_pollWaits (mode : NonceMode) (c : Bool) (st : State) :
     pollWaits (prepNonce mode c st).2.2 = 0 := by
@@ -691,23 +752,40 @@ theorem Good.trans {mode : NonceMode} {st st1 st2 : State} {e1 e2 : List Ev}
     obtain ⟨c2, hw2, hi2⟩ := h2.walk c1 hi1
     exact ⟨c2, by simp [walk_append, hw1, hw2], hi2⟩
 
+/-- One block `admit, getSend u, recvGet a` of `get`. -/
+theorem getBlock_good (mode : NonceMode) (st : State) (u : Nat) (a : Answer) (rest : List Answer)
+    (hs : st.script = a :: rest) :
+    Good mode st ⟨a.issued.or st.nonce, rest, st.nonceUrl⟩ [.admit, .getSend u, .recvGet a] := by
+  refine ⟨by simp [hs], rfl, rfl, fun cur h => ⟨a.issued.or cur, rfl, ?_⟩⟩
+  rcases h with h | ⟨hm, h⟩
+  · left; simp [h]
+  · cases hi : a.issued with
+    | none => right; exact ⟨hm, by simp [h]⟩
+    | some n => left; simp
+
+/-- Every iteration of the redirect loop passes the limiter before its request, consumes one
+answer, and keeps the nonce discipline. -/
+theorem getLoop_good (mode : NonceMode) (fuel u : Nat) (st : State) :
+    Good mode st (getLoop fuel u st).st (getLoop fuel u st).evs := by
+  induction fuel generalizing u st with
+  | zero => simp only [getLoop]; exact Good.refl _ _
+  | succ fuel ih =>
+    cases hs : st.script with
+    | nil =>
+      rw [getLoop_nil fuel u st hs]
+      exact ⟨by simp [hs], rfl, rfl, fun cur h => ⟨cur, rfl, h⟩⟩
+    | cons a rest =>
+      have hb := getBlock_good mode st u a rest hs
+      rcases getLoop_cons fuel u st a rest hs with ⟨u', k, -, -, -, he⟩ | ⟨-, h1, h2, -⟩
+      · rw [he]
+        exact hb.trans (ih u' _)
+      · rw [h1, h2]; exact hb
+
 theorem get_good (mode : NonceMode) (st : State) (c : Bool) (u : Nat) :
     Good mode st (get st c u).st (get st c u).evs := by
   cases c
   · rw [get_false]; exact Good.refl _ _
-  · cases hs : st.script with
-    | nil =>
-      rw [get_nil st u hs]
-      exact ⟨by simp [hs], rfl, rfl, fun cur h => ⟨cur, rfl, h⟩⟩
-    | cons a rest =>
-      obtain ⟨h1, h2⟩ := get_cons st u a rest hs
-      rw [h1, h2]
-      refine ⟨by simp [hs], rfl, rfl, fun cur h => ⟨a.issued.or cur, rfl, ?_⟩⟩
-      rcases h with h | ⟨hm, h⟩
-      · left; simp [h]
-      · cases hi : a.issued with
-        | none => right; exact ⟨hm, by simp [h]⟩
-        | some n => left; simp
+  · rw [get_true]; exact getLoop_good _ _ _ _
 
 theorem newNonce_good (mode : NonceMode) (st : State) (c : Bool) :
     Good mode st (newNonce st c).st (newNonce st c).evs := by
@@ -1114,28 +1192,61 @@ theorem pollLoop_first_match (N : Nat) (mode : NonceMode) (c b : Bool) (url : Na
 
 /-! ## Mode `take`: no nonce, no POST -/
 
-theorem post_take_fetch_fails (N : Nat) (st : State) (c b : Bool) (url : Nat)
+/-- General form: when the nonce fetch (the `newNonce` GET with whatever redirections it is led
+through) fails, or ends without a stored nonce, nothing is POSTed. -/
+theorem post_take_fetch_fails_gen (N : Nat) (st : State) (c b : Bool) (url : Nat)
     (hn : st.nonce = none)
-    (hf : ∀ g rest, st.script = g :: rest →
-      g.issued = none ∨ g.ok2xx = false ∨ g.body = .unreadable) :
+    (hf : (newNonce st c).res.isOk = false ∨ (newNonce st c).st.nonce = none) :
     posts (post N .take st c b url).evs = [] ∧ (post N .take st c b url).res.isOk = false := by
-  obtain ⟨nonce, script, nu⟩ := st
-  simp only at hn hf
-  subst hn
   cases c
   · simp [post, Result.isOk]
   · cases N with
     | zero => simp [post, postLoop, Result.isOk]
     | succ N =>
-      cases script with
-      | nil => simp [post, postLoop, round, prepNonce, newNonce, get, Result.isOk]
-      | cons g rest =>
-        have hg := hf g rest rfl
-        obtain ⟨d, o, h, bd⟩ := g
+      have hp := (newNonce_posts st true).1
+      simp only [post, if_true, postLoop, round, prepNonce, hn]
+      cases hr : (newNonce st true).res with
+      | ok bd =>
+        have h2 : (newNonce st true).st.nonce = none := by
+          rcases hf with h | h
+          · simp [hr, Result.isOk] at h
+          · exact h
+        simp [transmit, pickNonce, h2, hp, Result.isOk]
+      | err e => simp [hp, Result.isOk]
+      | stuck => simp [hp, Result.isOk]
+
+/-- The first answer decides when it is not a followed redirection. -/
+theorem getLoop_first_fails (fuel u : Nat) (st : State) (hn : st.nonce = none)
+    (hf : ∀ g rest, st.script = g :: rest →
+      (∀ u' k, g.redir ≠ .to u' k) ∧ (g.issued = none ∨ g.ok2xx = false ∨ g.body = .unreadable)) :
+    (getLoop fuel u st).res.isOk = false ∨ (getLoop fuel u st).st.nonce = none := by
+  cases fuel with
+  | zero => left; simp [getLoop, Result.isOk]
+  | succ fuel =>
+    cases hs : st.script with
+    | nil => left; rw [getLoop_nil fuel u st hs]; rfl
+    | cons g rest =>
+      obtain ⟨hr, hg⟩ := hf g rest hs
+      obtain ⟨d, o, h, bd, rd⟩ := g
+      cases rd with
+      | to u' k => exact absurd rfl (hr u' k)
+      | no =>
         cases d <;> cases o <;> cases h <;> cases bd <;>
           simp [Answer.issued] at hg <;>
-          simp [post, postLoop, round, prepNonce, newNonce, get, updateNonce, transmit, pickNonce,
-            Result.isOk]
+          simp [getLoop, hs, hn, updateNonce, Result.isOk]
+      | bad =>
+        left
+        cases d <;> cases h <;> simp [getLoop, hs, updateNonce, Result.isOk]
+
+theorem post_take_fetch_fails (N : Nat) (st : State) (c b : Bool) (url : Nat)
+    (hn : st.nonce = none)
+    (hf : ∀ g rest, st.script = g :: rest →
+      (∀ u' k, g.redir ≠ .to u' k) ∧ (g.issued = none ∨ g.ok2xx = false ∨ g.body = .unreadable)) :
+    posts (post N .take st c b url).evs = [] ∧ (post N .take st c b url).res.isOk = false := by
+  apply post_take_fetch_fails_gen N st c b url hn
+  cases c
+  · left; simp [newNonce, get, Result.isOk]
+  · simpa [newNonce, get_true] using getLoop_first_fails _ st.nonceUrl st hn hf
 
 
 /-! ## Never failing for want of a nonce -/
@@ -1281,11 +1392,11 @@ def observe (init : Option Nat) (evs : List Ev) : List (ObsTx Nat Nat) :=
   mkLog (posts evs) (postAnswers evs) (newestAt init evs)
 
 theorem obsOf_retry (a : Answer) : obsOf a = .recoverableProblem ↔ a.verdict = .retry := by
-  obtain ⟨d, o, h, b⟩ := a
+  obtain ⟨d, o, h, b, rd⟩ := a
   cases d <;> cases o <;> cases h <;> cases b <;> simp [obsOf, Answer.verdict] <;> split <;> simp_all
 
 theorem obsOf_success (a : Answer) : obsOf a = .ok2xx ↔ a.verdict = .success := by
-  obtain ⟨d, o, h, b⟩ := a
+  obtain ⟨d, o, h, b, rd⟩ := a
   cases d <;> cases o <;> cases h <;> cases b <;> simp [obsOf, Answer.verdict] <;> split <;> simp_all
 
 theorem walk_newestAt (mode : NonceMode) (evs : List Ev) (c L c' : Option Nat)
